@@ -18,6 +18,19 @@ independent oracle written here from the property text.
   verdict   validate_ksr on /repo's archived KSRs and broken files, under ksrsigner configurations
             whose POLICY is perturbed one rule at a time, with and without a previous SKR: status vs
             what load_ksr + check_skr_and_ksr(p11modules=None) say themselves vs the model's composition.
+  history   HISTORIES in one process: sequences of 2..5 uploads handled by the same long-lived module
+            state (real WKSR application objects built by WKSR.from_file from a real wksr.yaml) while,
+            BETWEEN the uploads, the content of the file named by filenames.previous_skr is replaced
+            (the next quarter's SKR, an older one, a damaged one, removed, restored), ksrsigner.yaml
+            is rewritten (policy tightened / relaxed, chain checks toggled, previous_skr re-pointed /
+            unset / set, response policy), wksr.yaml is rewritten (whitelist shrunk / restored, size
+            limit, content type) and the upload directory is emptied or overwritten; also the same
+            KSR twice, A-B-A, refused-then-good, two clients in turn.  30 written histories + random
+            ones.  Every step — whitelist decision, storage, verdict — is compared with (1) the
+            property's text on the configuration in force now, (2) the signer's own functions on the
+            files as they are now, (3) a FRESH interpreter (harness/wksr_fresh.py, one new process
+            per step, never reused) given the same client and the same stored file at that moment,
+            (4) the model.  Nothing the receiver answered earlier may influence an answer.
 """
 
 from __future__ import annotations
@@ -44,10 +57,14 @@ ASSUMPTIONS = [
     "`digest is None` pass-through branch of dispatch is unreachable",
     "the upload directory exists, is writable and contains no attacker-made symlinks; timestamps have the strftime('_%Y%m%d_%H%M%S_%f') shape",
     "validate_ksr's XML parser and signature verifier are parameters of the model (C12/C13/C07); their answers are passed as oracle",
+    "histories: the receiver reads wksr.yaml when it starts (WKSR.from_file), so a rewritten wksr.yaml takes effect through a new application object in the SAME interpreter "
+    "(module state survives); ksrsigner.yaml and the previous SKR are read by validate_ksr on every upload, so their changes must take effect at once",
+    "histories: the clock of the horizon rule is pinned (5 days before the first inception of the 2017-Q2 KSR) in the long-lived and in the fresh interpreters alike; the upload clock advances between steps",
 ]
 TRUSTED = [
     "harness/wksr_stubs.py stands in for fastapi / starlette (HTTPException, status codes, base classes); TLS, ASGI and multipart parsing are not exercised",
     "pathlib.PurePosixPath joining semantics (modelled in Kskm/Wksr.lean, compared on random strings)",
+    "harness/wksr_fresh.py: a new CPython process per history step as the reference for 'no influence of earlier uploads' (same stubs, same fake request objects)",
 ]
 
 SAFE = set("abcdefghijklmnopqrstuvwxyzABCDEFGHIJKLMNOPQRSTUVWXYZ0123456789_-")
@@ -464,17 +481,73 @@ def _flip_after(doc: bytes, marker: bytes) -> bytes:
     return doc[:i] + (b"B" if doc[i : i + 1] == b"A" else b"A") + doc[i + 1 :]
 
 
+def signer_says(cfg_path: Path | None, ksr_path: Path) -> tuple[Any, dict[str, Any]]:
+    """The signer's own functions on the files as they are NOW, called the way ksrsigner calls them but token-less:
+    get_config, load_skr (previous SKR, if one is configured), load_ksr, check_skr_and_ksr(p11modules=None)."""
+    from kskm.common.config import get_config
+    from kskm.common.validate import PolicyViolation
+    from kskm.ksr import load_ksr
+    from kskm.signer.policy import check_skr_and_ksr
+    from kskm.skr import load_skr
+
+    exp: Any
+    parts: dict[str, Any] = {}
+    try:
+        config = get_config(cfg_path)
+        parts["config"] = "ok"
+        try:
+            prev = load_skr(config.filenames.previous_skr, config.response_policy) if config.filenames.previous_skr is not None else None
+            parts["load_skr"] = "ok" if prev is not None else "none"
+            ksr = load_ksr(ksr_path, config.request_policy, raise_original=True)
+            parts["load_ksr"] = "ok"
+            if prev is not None:
+                check_skr_and_ksr(ksr, prev, config.request_policy, None)
+                parts["check_skr_and_ksr"] = "ok"
+            exp = {"ok": "OK"}
+        except PolicyViolation as e:
+            parts["violation"] = type(e).__name__
+            exp = {"ok": "ERROR"}
+    except Exception as e:  # noqa: BLE001
+        parts["exception"] = type(e).__name__
+        exp = {"error": lib.error_kind(e)}
+    return exp, parts
+
+
+def verdict_model_line(cfg_path: Path | None, ksrb: bytes, now_us: int, verify_log: list[Any]) -> dict[str, Any]:
+    """The model's inputs for one validate_ksr call (oracle answers: parser outcomes, verifier answers, the clock)."""
+    from kskm.common.config import get_config
+    from kskm.ksr.load import request_from_xml
+    from kskm.skr import load_skr
+
+    line: dict[str, Any] = {"op": "validate_ksr", "now": now_us, "verify": verify_log}
+    try:
+        config = get_config(cfg_path)
+        line["policy"] = lib.request_policy_j(config.request_policy)
+        prevfile = config.filenames.previous_skr
+        if prevfile is not None:
+            try:
+                prev = load_skr(prevfile, config.response_policy)
+                line["prev"] = lib.response_j(prev)
+            except Exception as e:  # noqa: BLE001
+                line["prevFail"] = {"error": lib.error_kind(e)}
+        try:
+            if len(ksrb) > 1024 * 1024:
+                raise RuntimeError("oversize")
+            line["request"] = lib.request_j(request_from_xml(ksrb.decode()))
+        except Exception as e:  # noqa: BLE001
+            line["parseFail"] = {"error": lib.error_kind(e)}
+    except Exception as e:  # noqa: BLE001
+        line["cfgFail"] = {"error": lib.error_kind(e)}
+        line["policy"] = lib.request_policy_j(__import__("kskm.common.config_misc", fromlist=["RequestPolicy"]).RequestPolicy())
+        line["parseFail"] = {"error": "other"}
+    return line
+
+
 def stream_verdict(res: Result, tier: str, driver_ok: bool) -> None:
     import yaml
 
     import kskm.common.signature as sigmod
-    from kskm.common.config import get_config
-    from kskm.common.validate import PolicyViolation
-    from kskm.ksr import load_ksr
     from kskm.ksr.load import request_from_xml
-    from kskm.signer.policy import check_skr_and_ksr
-    from kskm.skr import load_skr
-    from kskm.skr.load import response_from_xml
 
     server = wksr_stubs.load_server()
     r = lib.rng("C20:verdict")
@@ -583,49 +656,10 @@ def stream_verdict(res: Result, tier: str, driver_ok: bool) -> None:
                     has_msg = True
                 verify_log = rec.take()
                 # ---- the signer's own functions, called the way ksrsigner calls them but token-less
-                exp: Any
-                parts: dict[str, Any] = {}
-                try:
-                    config = get_config(cfg_path)
-                    parts["config"] = "ok"
-                    try:
-                        prev = load_skr(config.filenames.previous_skr, config.response_policy) if config.filenames.previous_skr is not None else None
-                        parts["load_skr"] = "ok" if prev is not None else "none"
-                        ksr = load_ksr(ksr_path, config.request_policy, raise_original=True)
-                        parts["load_ksr"] = "ok"
-                        if prev is not None:
-                            check_skr_and_ksr(ksr, prev, config.request_policy, None)
-                            parts["check_skr_and_ksr"] = "ok"
-                        exp = {"ok": "OK"}
-                    except PolicyViolation as e:
-                        parts["violation"] = type(e).__name__
-                        exp = {"ok": "ERROR"}
-                except Exception as e:  # noqa: BLE001
-                    parts["exception"] = type(e).__name__
-                    exp = {"error": lib.error_kind(e)}
+                exp, parts = signer_says(cfg_path, ksr_path)
                 rec.take()
                 # ---- the model's inputs (oracle answers: parser outcomes, verifier answers, the clock)
-                line: dict[str, Any] = {"op": "validate_ksr", "now": now_us, "verify": verify_log}
-                try:
-                    config = get_config(cfg_path)
-                    line["policy"] = lib.request_policy_j(config.request_policy)
-                    prevfile = config.filenames.previous_skr
-                    if prevfile is not None:
-                        try:
-                            prev = load_skr(prevfile, config.response_policy)
-                            line["prev"] = lib.response_j(prev)
-                        except Exception as e:  # noqa: BLE001
-                            line["prevFail"] = {"error": lib.error_kind(e)}
-                    try:
-                        if len(ksrb) > 1024 * 1024:
-                            raise RuntimeError("oversize")
-                        line["request"] = lib.request_j(request_from_xml(ksrb.decode()))
-                    except Exception as e:  # noqa: BLE001
-                        line["parseFail"] = {"error": lib.error_kind(e)}
-                except Exception as e:  # noqa: BLE001
-                    line["cfgFail"] = {"error": lib.error_kind(e)}
-                    line["policy"] = lib.request_policy_j(__import__("kskm.common.config_misc", fromlist=["RequestPolicy"]).RequestPolicy())
-                    line["parseFail"] = {"error": "other"}
+                line = verdict_model_line(cfg_path, ksrb, now_us, verify_log)
                 rec.take()
                 lines.append(line)
                 cases.append({"ksr": ktag, "skr": stag, "policy": ptag, "resp": rtag, "clock": clk, "out": out, "exp": exp, "parts": parts, "has_msg": has_msg})
@@ -656,7 +690,310 @@ def stream_verdict(res: Result, tier: str, driver_ok: bool) -> None:
             res.sample({"case": case, "impl": out, "signer_functions_say": exp, "model": None if m is None else m["status"], "detail": c["parts"]})
 
 
-STREAMS = [("upload", stream_upload), ("whitelist", stream_whitelist), ("verdict", stream_verdict)]
+# --------------------------------------------------------------------------------------
+# histories: several uploads handled by ONE process, with the files changed between them
+# --------------------------------------------------------------------------------------
+
+HISTORY_DEFAULT: dict[str, Any] = {
+    "skr": "2017-q1",  # content of <dir>/previous-skr.xml ("missing" = the file is removed)
+    "other": "2017-q2",  # content of <dir>/other-skr.xml
+    "prev": "previous-skr.xml",  # what filenames.previous_skr of ksrsigner.yaml names (None = not configured)
+    "policy": "base",  # request policy of ksrsigner.yaml (PERTURB)
+    "resp": "resp-default",  # response policy of ksrsigner.yaml
+    "whitelist": [0],  # client certificates listed in wksr.yaml (indices)
+    "max_size": 1 << 20,
+    "ct": "application/xml",
+    "updir": None,  # one-shot operation on the upload directory before the step: "emptied" | "garbage"
+}
+
+GOOD_NAME = "ksr-root-2017-q2-0.xml"
+
+
+def U(ksr: str = "A", client: Any = 0, fn: Any = GOOD_NAME, ct: str = "application/xml", **changes: Any) -> dict[str, Any]:
+    """one step of a history: the files changed before it (`changes` to the state above), then one upload"""
+    return {"set": changes, "ksr": ksr, "client": client, "fn": fn, "ct": ct}
+
+
+FIXED_HISTORIES: list[tuple[str, list[dict[str, Any]]]] = [
+    # the ceremony: the KSR is answered, signed; the SKR file gets the new quarter's content; the KSR is replayed
+    ("ceremony-then-replay", [U(), U(skr="2017-q2"), U(skr="2017-q1")]),
+    ("ceremony-reverse", [U(skr="2017-q2"), U(skr="2017-q1")]),
+    ("skr-walk", [U(skr="2017-q1"), U(skr="2017-q3"), U(skr="2018-q1"), U(skr="2017-q1")]),
+    ("same-twice", [U(), U()]),
+    ("same-thrice-other-names", [U(fn="a.xml"), U(fn="../../b.xml"), U(fn="a.xml")]),
+    ("A-B-A", [U("A"), U("B"), U("A")]),
+    ("A-C-A", [U("A"), U("C"), U("A")]),
+    ("B-A-B-skr-2018", [U("B", skr="2018-q1"), U("A"), U("B")]),
+    ("refused-truncated-then-good", [U("truncated"), U("A")]),
+    ("refused-bad-signature-then-good", [U("sig-bitflip"), U("A")]),
+    ("refused-not-xml-then-good", [U("not-xml"), U("A"), U("not-xml")]),
+    ("good-then-refused-then-good", [U("A"), U("sig-bitflip"), U("A")]),
+    ("wrong-content-type-then-good", [U(ct="text/plain"), U()]),
+    ("policy-tightened-and-relaxed", [U(), U(policy="num_bundles-8"), U(policy="base")]),
+    ("policy-key-sizes", [U(policy="key_sizes"), U(policy="base"), U(policy="exponents")]),
+    ("chain-checks-toggled", [U(skr="2017-q3"), U(policy="chain-off"), U(policy="base"), U(policy="chain-keys-off")]),
+    ("previous-skr-repointed", [U(), U(prev="other-skr.xml"), U(prev="previous-skr.xml")]),
+    ("previous-skr-configured-later", [U(prev=None), U(prev="previous-skr.xml", skr="2017-q2"), U(prev=None)]),
+    ("previous-skr-unconfigured-later", [U(skr="2017-q2"), U(prev=None)]),
+    ("previous-skr-removed-and-restored", [U(), U(skr="missing"), U(skr="2017-q1")]),
+    ("previous-skr-damaged-and-restored", [U(), U(skr="skr-truncated"), U(skr="2017-q2"), U(skr="2017-q1")]),
+    ("damaged-skr-first", [U(skr="skr-truncated"), U(skr="2017-q1")]),
+    ("response-policy-changed", [U(), U(resp="resp-8-bundles"), U(resp="resp-default")]),
+    ("whitelist-shrunk-and-restored", [U(), U(whitelist=[1]), U(whitelist=[0, 1])]),
+    ("two-clients", [U(client=0, whitelist=[0, 1]), U(client=1), U(client=0, whitelist=[1]), U(client=1), U(client="noCert")]),
+    ("unlisted-first", [U(client=1), U(client=0), U(client=1, whitelist=[0, 1])]),
+    ("max-size-lowered-and-raised", [U(), U(max_size=100), U(max_size=1 << 20)]),
+    ("content-type-changed", [U(), U(ct_cfg="text/xml"), U(ct="text/xml"), U(ct_cfg="application/xml")]),
+    ("upload-directory-emptied", [U(), U(updir="emptied"), U()]),
+    ("upload-directory-overwritten", [U(), U(updir="garbage"), U("B")]),
+]
+
+
+def random_history(r: Any) -> list[dict[str, Any]]:
+    steps = []
+    for _ in range(r.choice([2, 3, 3, 4])):
+        ch: dict[str, Any] = {}
+        for _k in range(r.choice([0, 1, 1, 2])):
+            what = r.choice(["skr", "skr", "skr", "other", "prev", "policy", "resp", "whitelist", "max_size", "updir"])
+            ch[what] = {
+                "skr": lambda: r.choice(["2017-q1", "2017-q2", "2017-q3", "2018-q1", "skr-truncated", "missing"]),
+                "other": lambda: r.choice(["2017-q1", "2017-q2", "2017-q3"]),
+                "prev": lambda: r.choice(["previous-skr.xml", "other-skr.xml", None]),
+                "policy": lambda: r.choice(["base", "base", "num_bundles-8", "key_sizes", "chain-off", "chain-keys-off", "chain-overlap-off", "flags-off", "no-signatures"]),
+                "resp": lambda: r.choice(["resp-default", "resp-default", "resp-8-bundles"]),
+                "whitelist": lambda: r.choice([[0], [1], [0, 1], []]),
+                "max_size": lambda: r.choice([1 << 20, 1 << 20, 100, 19556]),
+                "updir": lambda: r.choice(["emptied", "garbage"]),
+            }[what]()
+        steps.append(U(r.choice(["A", "A", "A", "B", "C", "truncated", "sig-bitflip", "not-xml"]), client=r.choice([0, 0, 0, 1, "noCert"]), fn=r.choice([GOOD_NAME, GOOD_NAME, "../../../etc/passwd", "a b\x00c", ""]), ct=r.choice(["application/xml"] * 5 + ["text/plain"]), **ch))
+    return steps
+
+
+def stream_history(res: Result, tier: str, driver_ok: bool) -> None:
+    """One long-lived process handles a SEQUENCE of uploads while the previous-SKR file, ksrsigner.yaml, wksr.yaml (whitelist,
+    size limit, content type) and the upload directory change between them.  Every answer must be what a FRESH interpreter
+    (harness/wksr_fresh.py: never handled an upload, builds the application from wksr.yaml as it is now) gives for the same
+    client and the same stored file at that moment, what the signer's own functions say on the current files, what the
+    property's text says about whitelist and storage, and what the model computes."""
+    import yaml
+
+    import kskm.common.signature as sigmod
+    from kskm.ksr.load import request_from_xml
+    from wksr_fresh import FreshPool
+
+    server = wksr_stubs.load_server()
+    HTTPException = wksr_stubs.http_exception_class()
+    r = lib.rng("C20:history")
+    data = REPO / "src/kskm"
+    good = (data / "signer/tests/data/ksr-root-2017-q2-0.xml").read_bytes()
+    KSRS: dict[str, bytes] = {
+        "A": good,
+        "B": (data / "ksr/tests/data/ksr-root-2018-q1-0-d_to_e.xml").read_bytes(),
+        "C": (data / "ksr/tests/data/ksr-root-2016-q3-0.xml").read_bytes(),
+        "truncated": good[: len(good) // 2],
+        "sig-bitflip": _flip_after(good, b"<SignatureData>"),
+        "not-xml": b"hello world\n",
+    }
+    SKRS: dict[str, bytes] = {
+        "2017-q1": (data / "signer/tests/data/skr-root-2017-q1-0.xml").read_bytes(),
+        "2017-q2": (data / "signer/tests/data/skr-root-2017-q2-0.xml").read_bytes(),
+        "2017-q3": (data / "signer/tests/data/skr-root-2017-q3-0-c_to_d.xml").read_bytes(),
+        "2018-q1": (data / "skr/tests/data/skr-root-2018-q1-0-d_to_e.xml").read_bytes(),
+    }
+    SKRS["skr-truncated"] = SKRS["2017-q1"][:3000]
+    resp_policies = {"resp-default": {}, "resp-8-bundles": {"num_bundles": 8}}
+    certs = [wksr_stubs.make_cert(f"history-client-{i}", 50 + i, ec=True) for i in range(2)]
+    fps = [hashlib.sha256(c).hexdigest() for c in certs]
+    now_us = lib.dt_us(request_from_xml(good.decode()).bundles[0].inception) - 5 * lib.DAY_US
+
+    histories = list(FIXED_HISTORIES)
+    for k in range(14 if tier == "quick" else 160):
+        histories.append((f"random-{k}", random_history(r)))
+
+    records: list[dict[str, Any]] = []
+    lines: list[dict[str, Any]] = []
+    rec = lib.VerifyRecorder().install(sigmod)
+    try:
+        with tempfile.TemporaryDirectory(prefix="kskm_c20h_") as top, lib.PinnedClock() as clock, FreshPool(8) as pool:
+            clock.now_us = now_us
+            for hname, steps in histories:
+                d = Path(top).resolve() / hname
+                (d / "upload").mkdir(parents=True)
+                for n in ("cert.pem", "key.pem", "ca.pem", "upload.html", "result.html", "email.txt"):
+                    (d / n).write_text("x")
+                state = dict(HISTORY_DEFAULT)
+                state["ct_cfg"] = state.pop("ct")
+                written: dict[str, Any] = {}
+                app = None
+                described = []
+                for k, st in enumerate(steps):
+                    ch = dict(st["set"])
+                    updir_op = ch.pop("updir", None)
+                    state.update(ch)
+                    described.append({"changed_before": st["set"], "upload": st["ksr"], "client": st["client"], "filename": st["fn"], "content_type": st["ct"]})
+                    # ---- the files, as this step wants them
+                    for fname, key in (("previous-skr.xml", "skr"), ("other-skr.xml", "other")):
+                        if written.get(fname) != state[key]:
+                            if state[key] == "missing":
+                                with contextlib.suppress(FileNotFoundError):
+                                    (d / fname).unlink()
+                            else:
+                                (d / fname).write_bytes(SKRS[state[key]])
+                            written[fname] = state[key]
+                    pol = dict(BASE_POLICY)
+                    pol.setdefault("signature_check_expire_horizon", False)
+                    pol.update(dict(PERTURB)[state["policy"]])
+                    cfg: dict[str, Any] = {"request_policy": pol, "response_policy": resp_policies[state["resp"]]}
+                    if state["prev"] is not None:
+                        cfg["filenames"] = {"previous_skr": str(d / state["prev"])}
+                    cfg_text = yaml.safe_dump(cfg)
+                    if written.get("ksrsigner.yaml") != cfg_text:
+                        (d / "ksrsigner.yaml").write_text(cfg_text)
+                        written["ksrsigner.yaml"] = cfg_text
+                    wcfg = {
+                        "tls": {"cert": str(d / "cert.pem"), "key": str(d / "key.pem"), "ca_cert": str(d / "ca.pem"), "require_client_cert": True, "client_whitelist": [fps[i] for i in state["whitelist"]]},
+                        "ksr": {"max_size": state["max_size"], "content_type": state["ct_cfg"], "upload_path": str(d / "upload"), "ksrsigner_configfile": str(d / "ksrsigner.yaml")},
+                        "templates": {"upload": str(d / "upload.html"), "result": str(d / "result.html"), "email": str(d / "email.txt")},
+                    }
+                    wtext = yaml.safe_dump(wcfg)
+                    if written.get("wksr.yaml") != wtext:
+                        (d / "wksr.yaml").write_text(wtext)
+                        written["wksr.yaml"] = wtext
+                        app = server.WKSR.from_file(str(d / "wksr.yaml"))  # the receiver reads its own configuration when it starts
+                    if updir_op == "emptied":
+                        for f in (d / "upload").iterdir():
+                            f.unlink()
+                    elif updir_op == "garbage":
+                        for f in (d / "upload").iterdir():
+                            f.write_bytes(b"garbage " + f.name.encode())
+                    # ---- the step in the long-lived process: whitelist, store, validate
+                    peer: Any = certs[st["client"]] if isinstance(st["client"], int) else st["client"]
+                    body = KSRS[st["ksr"]]
+                    when = WHEN.replace(second=(WHEN.second + k) % 60, microsecond=(WHEN.microsecond + 7 * k) % 10**6)
+                    suffix = when.strftime("_%Y%m%d_%H%M%S_%f")
+                    obs: dict[str, Any] = {}
+                    reached: list[Any] = []
+
+                    async def call_next(rq: Any) -> str:
+                        reached.append(rq)  # noqa: B023
+                        return "handler-response"
+
+                    try:
+                        ret = asyncio.run(server.ClientCertificateWhitelist(None).dispatch(wksr_stubs.FakeRequest(app, peer), call_next))
+                        obs["dispatch"] = "callNext" if (reached and ret == "handler-response") else {"error": "returned-without-handler"}
+                    except HTTPException as e:  # type: ignore[misc]
+                        obs["dispatch"] = {"http": e.status_code}
+                    except Exception as e:  # noqa: BLE001
+                        obs["dispatch"] = {"error": lib.error_kind(e)}
+                    stored: Path | None = None
+                    if obs["dispatch"] == "callNext":
+                        up = wksr_stubs.FakeUpload(st["fn"], st["ct"], len(body), body)
+                        before = snapshot(d)
+                        with wksr_stubs.FixedClock(server, when):
+                            try:
+                                ret2 = asyncio.run(server.save_ksr(app, up))
+                                stored = Path(ret2[0])
+                                obs["save"] = {"ok": [str(ret2[0]), ret2[1]]}
+                            except HTTPException as e:  # type: ignore[misc]
+                                obs["save"] = {"http": e.status_code}
+                            except OSError:
+                                obs["save"] = {"error": "os"}
+                            except Exception as e:  # noqa: BLE001
+                                obs["save"] = {"error": lib.error_kind(e)}
+                        after = snapshot(d)
+                        obs["created"] = sorted(set(after) - set(before))
+                        obs["changed"] = sorted(x for x in before if after.get(x) != before[x])
+                        obs["body_reads"] = up.reads
+                        obs["stored_sha256"] = after.get(str(stored.relative_to(d))) if stored is not None and stored.is_relative_to(d) else None
+                    exp = parts = line = None
+                    if stored is not None:
+                        rec.take()
+                        try:
+                            result = server.validate_ksr(app, stored)
+                            obs["verdict"] = {"ok": result.get("status")}
+                        except Exception as e:  # noqa: BLE001
+                            obs["verdict"] = {"error": lib.error_kind(e)}
+                        verify_log = rec.take()
+                        # the signer's own functions on the files as they are now, and the model's inputs
+                        exp, parts = signer_says(d / "ksrsigner.yaml", stored)
+                        rec.take()
+                        line = verdict_model_line(d / "ksrsigner.yaml", body, now_us, verify_log)
+                        rec.take()
+                    # ---- the same client and the same stored file, judged by an interpreter that has never seen an upload
+                    fresh = pool.ask({"wksr_yaml": str(d / "wksr.yaml"), "peer": {"der": peer.hex()} if isinstance(peer, bytes) else peer, "stored": None if stored is None else str(stored), "now_us": now_us})
+                    records.append({
+                        "history": hname, "step": k, "steps": list(described), "st": st, "state": dict(state), "obs": obs, "fresh": fresh, "exp": exp, "parts": parts,
+                        "line_index": None if line is None else len(lines), "listed": isinstance(st["client"], int) and st["client"] in state["whitelist"],
+                        "suffix": suffix, "body_sha256": hashlib.sha256(body).hexdigest(), "updir": str(d / "upload"), "root": str(d), "body_len": len(body),
+                    })
+                    if line is not None:
+                        lines.append(line)
+            res.stats["history:fresh-interpreters-used"] = pool.used
+            res.stats["history:distinct-fresh-pids"] = len(pool.pids)
+    finally:
+        rec.uninstall()
+    model = run_driver(lines, exe=DRIVER) if (driver_ok and lines) else [None] * len(lines)
+    for c in records:
+        st, state, obs, fresh = c["st"], c["state"], c["obs"], c["fresh"]
+        case = {"stream": "history", "history": c["history"], "step": c["step"], "steps_so_far": c["steps"], "files_now": {k: v for k, v in state.items() if k != "updir"}}
+        res.count(case)
+        res.bump("history:histories" if c["step"] == 0 else "history:later-steps")
+        res.bump(f"history:step-{c['step']}")
+        for what in st["set"]:
+            res.bump("history:changed-before-step:" + what)
+        res.bump("history:upload:" + st["ksr"])
+        hk = c["history"].split("-")[0] if c["history"].startswith("random") else c["history"]
+        # ---- whitelist, from the property's text
+        if c["listed"] != (obs["dispatch"] == "callNext") or (not c["listed"] and isinstance(st["client"], int) and obs["dispatch"] != {"http": 403}):
+            res.violation("history: the whitelist in force now does not decide who is admitted", case, key=f"history:{hk}:whitelist", observed=obs, listed_now=c["listed"])
+        # ---- storage, from the property's text
+        if obs["dispatch"] == "callNext":
+            if st["ct"] != state["ct_cfg"]:
+                want: Any = {"http": 400}
+            elif c["body_len"] > state["max_size"]:
+                want = {"http": 413}
+            elif not name_fits(st["fn"]):
+                want = {"error": "os"}
+            else:
+                want = "stored"
+            name = oracle_wash(str(st["fn"])) + c["suffix"] + ".xml"
+            rel = os.path.relpath(os.path.join(c["updir"], name), c["root"])
+            if want == "stored":
+                good_store = obs.get("save") == {"ok": [os.path.join(c["updir"], name), c["body_sha256"]]} and obs["created"] == [rel] and not obs["changed"] and obs["stored_sha256"] == c["body_sha256"]
+            else:
+                good_store = obs.get("save") == want and not obs["created"] and not obs["changed"] and not (obs["body_reads"] and "http" in want)
+            res.bump("history:save:" + ("stored" if "ok" in obs.get("save", {}) else str(obs.get("save"))))
+            if not good_store:
+                res.violation("history: an upload is not stored (or refused) as the limits in force now say", case, key=f"history:{hk}:storage", observed=obs, expected=want, expected_name=name)
+        # ---- a fresh interpreter on the same files
+        if "fresh_failed" in fresh or "app" in fresh:
+            res.disagreement("history: the fresh interpreter did not answer", case, obs, fresh)
+            continue
+        if fresh.get("dispatch") != obs["dispatch"]:
+            res.violation("history: the long-lived receiver admits / refuses a client differently from a fresh one on the same configuration", case, key=f"history:{hk}:whitelist-vs-fresh", observed=obs["dispatch"], fresh_interpreter_says=fresh.get("dispatch"))
+        if "verdict" in obs:
+            out, exp = obs["verdict"], c["exp"]
+            res.bump("history:verdict:" + (out["ok"] if "ok" in out else "exception"))
+            if "violation" in (c["parts"] or {}):
+                res.bump("history:rule:" + c["parts"]["violation"])
+            if fresh.get("verdict") != out:
+                res.violation("history: the long-lived receiver judges an upload differently from a fresh one on the same files", case, key=f"history:{hk}:verdict-vs-fresh", observed=out, fresh_interpreter_says=fresh.get("verdict"), signer_functions_say=exp, detail=c["parts"])
+            if not (out == exp or same_outcome(out, exp)):
+                res.violation("validate_ksr does not judge like the signer's own validation", case, key=f"history:{hk}:verdict", observed=out, signer_functions_say=exp, fresh_interpreter_says=fresh.get("verdict"), detail=c["parts"])
+            m = model[c["line_index"]] if c["line_index"] is not None else None
+            if m is not None:
+                ms = m["status"]
+                if lib.is_unsupported(ms):
+                    res.unsupported += 1
+                else:
+                    mo: Any = {"ok": ms} if isinstance(ms, str) else ms
+                    if not (mo == out or same_outcome(out, mo)):
+                        res.disagreement("history: validate_ksr: model != implementation", case, out, {"status": mo, "validateRequest": m.get("validateRequest"), "checkSkrAndKsr": m.get("checkSkrAndKsr")})
+        if len(res.samples) < 9 and c["history"] == "ceremony-then-replay":
+            res.sample({"case": {k: v for k, v in case.items() if k != "steps_so_far"}, "impl": obs.get("verdict"), "fresh_interpreter": fresh.get("verdict"), "signer_functions_say": c["exp"], "detail": c["parts"]})
+
+
+STREAMS = [("upload", stream_upload), ("whitelist", stream_whitelist), ("verdict", stream_verdict), ("history", stream_history)]
 
 
 def run(tier: str, driver_ok: bool) -> Result:
@@ -666,6 +1003,8 @@ def run(tier: str, driver_ok: bool) -> Result:
         "content types {right,wrong,None,case,params,empty} x 3 names, missing / relative upload dir; tree snapshot before/after; random pathlib joins; "
         "whitelist: real certificates x {listed, unlisted, empty, upper-case, prefix, longer, colon-separated, SPKI digest} + no TLS / no certificate / bad DER; "
         "verdict: archived and broken KSRs x previous SKR {none, chained, same id, unrelated, later, unparsable} x one-rule policy perturbations x clocks; "
+        "history: 30 written + random sequences of 2..5 uploads in one process with previous-SKR content / ksrsigner.yaml / wksr.yaml (whitelist, limits) / upload directory changed between them "
+        "(same KSR twice, A-B-A, refused-then-good, ceremony-then-replay), every step vs property text, signer's functions now, a fresh interpreter per step, model; "
         "non-trivial = distinct (stream, input)"
     )
     for name, fn in STREAMS:
